@@ -456,6 +456,28 @@ fn user_fields(rng: &mut Rng, out: &mut Vec<u8>, desc: &mut Vec<String>) {
 fn grammar_entropy(rng: &mut Rng) -> (Vec<u8>, String) {
     let mut e = Vec::new();
     let mut desc = Vec::new();
+    if rng.chance(1, 5) {
+        // variant choice, a few small structure bytes, then a long run of 1-4 byte characters, and a tail of
+        // large length bytes: whichever way a text or byte field draws its length (front or tail), it gets
+        // long well-formed multi-byte content
+        let sel = [0u8, 0xA0, 0x20, 0x70][rng.usize_below(4)].wrapping_add(rng.below(20) as u8);
+        e.extend_from_slice(&[rng.next() as u8, rng.next() as u8, rng.next() as u8, sel]);
+        for _ in 0..rng.usize_below(6) {
+            e.push(rng.below(2) as u8);
+        }
+        let n = 130 + rng.usize_below(700);
+        e.extend_from_slice(&crate::schema::utf8_text(rng, n));
+        for _ in 0..rng.usize_below(6) {
+            e.push(1);
+            let m = 60 + rng.usize_below(200);
+            e.extend_from_slice(&crate::schema::utf8_text(rng, m));
+        }
+        let tail_n = 2 + rng.usize_below(10);
+        for _ in 0..tail_n {
+            e.push(*rng.pick(&[0xffu8, 0x80, 200, 129, 130, 64, 33, 1, 0]));
+        }
+        return (e, format!("variant byte 0x{:02x}, {} bytes of 1-4 byte characters, {} large tail length bytes", sel, n, tail_n));
+    }
     if rng.chance(2, 3) {
         // derived enum choice: (u32 * 10) >> 32 == 0 -> MakeCredential
         e.extend_from_slice(&[rng.next() as u8, rng.next() as u8, rng.next() as u8, rng.below(25) as u8]);
@@ -572,7 +594,7 @@ fn pattern_steps(run: u64) -> Vec<Step> {
     let mut steps = Vec::new();
     for j in 0..4u64 {
         let b = ((run * 4 + j) % 256) as u8;
-        for n in [5usize, 40, 300] {
+        for n in [5usize, 40, 300, 1100] {
             for generator in 0..3u8 {
                 steps.push(Step::Generate(GenSpec { generator, take_rest: (n + generator as usize) % 2 == 0, entropy: vec![b; n], desc: format!("{} bytes of 0x{:02x}", n, b) }));
             }
